@@ -435,7 +435,7 @@ func (g *G) classes() []genClass {
 		}
 		return []genClass{{3, grid}, {4, gridFault}, {3, faults}, {1, sie}, {2, debug(inval)}, {1, debug(status)}}
 	case "C03":
-		return []genClass{{8, urls}, {2, inval}}
+		return []genClass{{8, urls}, {2, inval}, {1, func(g *G, id string) *History { return g.genRootless(id) }}}
 	case "C04":
 		return []genClass{{8, vary}, {1, faults}, {1, backends}, {1, func(g *G, id string) *History { return g.genCollide(id) }}}
 	case "C07":
@@ -451,7 +451,7 @@ func (g *G) classes() []genClass {
 	case "C20":
 		return []genClass{{8, func(g *G, id string) *History { return g.genSWR(id) }}, {2, grid}, {1, swrInval}}
 	case "C09":
-		return []genClass{{4, urls}, {3, vary}, {3, backends}, {2, chain}}
+		return []genClass{{4, urls}, {3, vary}, {3, backends}, {2, chain}, {1, func(g *G, id string) *History { return g.genRootless(id) }}}
 	}
 	return []genClass{{1, grid}}
 }
